@@ -431,6 +431,9 @@ class BitVector(_PrimitiveType, metaclass=_BitVector):
             width = max(start, stop) - min(start, stop) + 1
 
             if stop <= start:
+                assert (
+                    0 <= stop and start < self.width
+                ), "slice exceeds vector width"
                 return BitVector[width](self._value[stop : start + 1])
             else:
                 raise RuntimeError("not implemented")
